@@ -766,7 +766,7 @@ theorem dqUpHeapify (s : Store P) (i : Nat) (fuel : Nat) (h : fuel ≥ s.size + 
 /-- the `for` loop of `heap_build`, for any body that behaves like `heapify(j)` on stores of size `n` -/
 theorem dqHeapBuild_for (n : Nat) (body : Nat → St P → R (St P × Flow P))
     (hbody : ∀ j (st : St P), st.s.size = n → body j st =
-      (fun s' => ({ s := s', n := upd st.n 0 j, p := st.p }, Flow.normal)) <$> DQ.heapify st.s j) :
+      (fun s' => ({ st with s := s', n := upd st.n 0 j }, Flow.normal)) <$> DQ.heapify st.s j) :
     ∀ (h : Nat) (st : St P), st.s.size = n →
     Agrees (forDown body h st) (DQ.heapBuildLoop st.s h) (fun st' s' => st'.s = s') := by
   intro h
